@@ -1561,7 +1561,12 @@ class Stage:
             sub_expr.append(r)
         cat = vcat if transpose else hcat
         res = cat(sub_expr)
+        # One time per sampled node
         time = stage._method.control_grid
+        if not include_first:
+            time = time[1:]
+        if not include_last:
+            time = time[:-1]
         return time, res
 
     def _grid_integrator(self, stage, expr, grid, include_first=True, include_last=True):
@@ -1575,7 +1580,11 @@ class Stage:
             time.append(stage._method.integrator_grid[k])
         if include_last:
             sub_expr.append(stage._method.eval_at_control(stage, expr, -1))
-        return vcat(time), hcat(sub_expr)
+        time = vcat(time)
+        if not include_last:
+            # One time per sampled point
+            time = time[:-1]
+        return time, hcat(sub_expr)
 
 
     def _grid_integrator_roots(self, stage, expr, grid, include_first=True, include_last=True):
